@@ -34,7 +34,7 @@ def what(obs, log, sp):
 
 
 def correspondence(run):
-    rc.correspond(run, pairs(run, run.n(600, 8000)), what, "C06")
+    rc.correspond(run, pairs(run, run.n(1200, 12000)), what, "C06")
 
 
 def check_orders(run, fam, call):
